@@ -163,12 +163,15 @@ def advance (fl : Flags) (s : St) (g : Nat) : St :=
         match op with
         | .log c =>
           let s := emit s [.begin g w.idx]
-          -- `Logger.log`: shutdown check (only on the Logger's own methods), level check; a stale
-          -- slog.Logger checks the level it was built with (Info) and knows nothing of the buffer
-          let accepted := if c.stale then decide (1 ≤ c.lvl)
-                          else decide (s.level ≤ c.lvl) && (c.derived || !s.shutdown)
+          if c.stale then
+            -- a stale slog.Logger: the level it was built with (Info), no shutdown check, no buffer
+            if decide (1 ≤ c.lvl) then setWorker s g { w with gate := some (.pass { g := g, c := c }) }
+            else finishOp s g w
+          else
+          -- `Logger.log`: shutdown check (only on the Logger's own methods), level check
+          let accepted := decide (s.level ≤ c.lvl) && (c.derived || !s.shutdown)
           if !accepted then finishOp s g w
-          else if !c.stale && s.wrapped && s.buffering then
+          else if s.wrapped && s.buffering then
             finishOp { s with buffer := s.buffer ++ [{ g := g, c := c }] } g w
           else setWorker s g { w with gate := some (.pass { g := g, c := c }) }
         | .startBuffering =>
